@@ -55,7 +55,12 @@ RouterSession::End RouterSession::endFromJson(const Json &j) {
     return e;
 }
 bool RouterSession::endValid(const End &e) {
-    if (e.kind == 1) { auto it = shapes.find(e.shape); return it != shapes.end() && it->second.alive; }
+    if (e.kind == 1) {
+        auto it = shapes.find(e.shape);
+        if (it == shapes.end() || !it->second.alive) return false;
+        for (auto &p : it->second.pins) if (p.cls == e.cls) return true;      // attaching to a pin class the shape does not have is not valid use
+        return false;
+    }
     if (e.kind == 2) { auto it = junctions.find(e.junction); return it != junctions.end() && it->second.alive; }
     return true;
 }
@@ -519,13 +524,6 @@ void RouterSession::run() {
     }
     router = nullptr;
 }
-
-// default hooks (overridden for C10-C12 in eng_router2.cpp)
-void RouterSession::addPins(Sh &, const Json &) {}
-void RouterSession::onReshape(Sh &, const Poly &, const Json &) {}
-bool RouterSession::extraOp(const Json &, const std::string &, std::string &, bool &) { return false; }
-void RouterSession::extraChecks(const char *) {}
-bool RouterSession::optNudgeAttached() { return options.count(nudgeOrthogonalSegmentsConnectedToShapes) ? options[nudgeOrthogonalSegmentsConnectedToShapes] : false; }
 
 static Session *mkRouter() { return new RouterSession(); }
 static SessionRegistrar rr1("router", mkRouter);
